@@ -135,7 +135,8 @@ var c09Clients = map[string][]netip.Addr{
 	"s3": {netip.MustParseAddr("2001:db8:1:2::1"), netip.MustParseAddr("2001:db8:1:ffff:ffff::9"), netip.MustParseAddr("2001:db8:1:2ff::3")},
 	"s4": {netip.MustParseAddr("2001:db8:2::1")},
 }
-var c09Allowed = netip.MustParseAddr("198.51.100.77")
+// the allow-listed address (a /32 entry) lies INSIDE bucket s1: its neighbours may drive the bucket into back-off
+var c09Allowed = netip.MustParseAddr("192.0.2.77")
 
 func c09Msg(qtype uint16, size int) *dns.Msg {
 	m := new(dns.Msg)
